@@ -102,19 +102,125 @@ def gen_consts():
     return True, "ok"
 
 
-def ensure_coq(jobs=16):
-    """Full .vo build of the development (incremental).  Returns (ok, log)."""
+def gen_waitsites():
+    """Regenerate coq/Generated/WaitSites.v from the SOURCE TEXT of the checkout
+    (VERIF_REPO when set, else /repo; translator: harness/cmd/genwaitsites,
+    go/parser only).  coq/C17/Tie.v ties the C17 wait-site table to it.
+    Returns (ok, message)."""
+    src = os.path.join(HARNESS, "cmd", "genwaitsites")
+    if not os.path.isdir(src):
+        return True, "no translator"
+    os.makedirs(os.path.join(WORK, "bin"), exist_ok=True)
+    binp = os.path.join(WORK, "bin", "genwaitsites")
+    rc, out = sh(["go", "build", "-o", binp, "./cmd/genwaitsites"], cwd=HARNESS, env=GOENV, timeout=600)
+    if rc != 0:
+        return False, "genwaitsites does not build:\n" + out
+    rc, out = sh([binp, "-repo", ALT_REPO or "/repo"], timeout=60)
+    ok, msg = True, "ok"
+    if rc != 0 or "Definition wait_sites" not in out:
+        # the source does not parse (or a listed file is gone): leave a table
+        # that makes the tie fail with a name instead of a stale one
+        ok, msg = False, "genwaitsites failed:\n" + out
+        out = ("(* GENERATED: harness/cmd/genwaitsites FAILED on this checkout. *)\n"
+               "From Coq Require Import String List.\nFrom Verif Require Import C17.WaitTypes.\n"
+               "Import ListNotations.\nOpen Scope string_scope.\n"
+               "Definition wait_sites : list gsite := [mkG \"genwaitsites failed\" 0 \"\" MissingFunction []].\n")
+    p = os.path.join(COQ, "Generated", "WaitSites.v")
+    old = open(p).read() if os.path.exists(p) else ""
+    if old != out:
+        os.makedirs(os.path.dirname(p), exist_ok=True)
+        open(p, "w").write(out)
+    return ok, msg
+
+
+_MOD = r"[A-Za-z0-9_']+(?:\.[A-Za-z0-9_']+)*"
+_REQ = re.compile(r"From\s+Verif\s+Require\s+(?:Import\s+|Export\s+)?(" + _MOD + r"(?:\s+" + _MOD + r")*)\s*\.(?=\s|$)")
+
+
+def required_files(vfile):
+    """The .v files of the development a file names in `From Verif Require ...`
+    (one or several modules per command)."""
+    txt = re.sub(r"\(\*.*?\*\)", "", open(vfile).read(), flags=re.S)
+    out = []
+    for m in _REQ.finditer(txt):
+        for mod in m.group(1).split():
+            out.append(os.path.join(COQ, mod.replace(".", "/") + ".v"))
+    return out
+
+
+def file_cone(v):
+    """.v files a .v file depends on (transitively, itself included)."""
+    todo, seen = [v], set()
+    while todo:
+        f = todo.pop()
+        if f in seen or not os.path.exists(f):
+            continue
+        seen.add(f)
+        todo += required_files(f)
+    return sorted(seen)
+
+
+def vo_current(v):
+    """The compiled file is current: it and everything it depends on is compiled
+    from the present source, and it is not older than any of its dependencies
+    (a dependency that was rebuilt while this file failed to rebuild leaves a
+    stale .vo behind, which must not count as a discharged obligation)."""
+    vo = v[:-2] + ".vo"
+    if not os.path.exists(vo):
+        return False
+    t = os.path.getmtime(vo)
+    for d in file_cone(v):
+        dvo = d[:-2] + ".vo"
+        if not os.path.exists(dvo) or os.path.getmtime(dvo) < os.path.getmtime(d):
+            return False
+        if os.path.getmtime(dvo) > t:
+            return False
+    return True
+
+
+def ensure_coq(jobs=16, prop=None):
+    """Full .vo build of the development (incremental).  Returns (ok, log,
+    current) where current lists the properties files of [prop] whose .vo is
+    current right after the build (checked under the same lock, so that a
+    concurrent run regenerating coq/Generated cannot blur it)."""
     with Lock("coq"):
         okc, msgc = gen_consts()
+        okw, msgw = gen_waitsites()
         changed = gen_coqproject()
         mk = os.path.join(COQ, "Makefile.coq")
         if changed or not os.path.exists(mk):
             rc, out = sh(["coq_makefile", "-f", "_CoqProject", "-o", "Makefile.coq"], cwd=COQ)
             if rc != 0:
-                return False, out
+                return False, out, []
         rc, out = sh(["make", "-f", "Makefile.coq", "-j%d" % jobs, "-k"], cwd=COQ, timeout=3000)
-        log = ("" if okc else msgc + "\n") + out
-        return (rc == 0 and okc), log
+        log = ("" if okc else msgc + "\n") + ("" if okw else msgw + "\n") + out
+        current = []
+        if prop is not None:
+            current = [rel for rel in REGISTRY[prop]["properties_files"] if vo_current(os.path.join(COQ, rel))]
+        return (rc == 0 and okc and okw), log, current
+
+
+def coq_errors(log, files):
+    """The error blocks of a make log that belong to the given .v files, each
+    with the theorem the error position falls into."""
+    out = []
+    pat = re.compile(r'File "(?:\./)?([^"]+)", line (\d+), characters [\d-]+:\n(Error:.*?)(?=\n(?:make|COQC|COQDEP|File "|Closed under|[A-Za-z0-9_.]+ is |$)|\Z)', re.S)
+    for m in pat.finditer(log):
+        rel, line, err = m.group(1), int(m.group(2)), m.group(3)
+        if rel not in files:
+            continue
+        thm = None
+        try:
+            for i, l in enumerate(open(os.path.join(COQ, rel)), 1):
+                if i > line:
+                    break
+                mm = re.match(r"\s*(Theorem|Example|Lemma|Definition|Fixpoint)\s+([A-Za-z0-9_']+)", l)
+                if mm:
+                    thm = mm.group(2)
+        except OSError:
+            pass
+        out.append({"file": rel, "line": line, "in": thm, "error": err.strip()[:4000]})
+    return out
 
 
 def theorem_names(vfile):
@@ -126,8 +232,9 @@ def theorem_names(vfile):
     return names
 
 
-def obligations(prop):
-    """(all theorem names, discharged names, assumption report, bad axioms)."""
+def obligations(prop, current=None):
+    """(all theorem names, discharged names, assumption report, bad axioms).
+    current: the properties files found current right after the build."""
     cfg = REGISTRY[prop]
     allnames, done, report, bad = [], [], {}, []
     for rel in cfg["properties_files"]:
@@ -135,6 +242,8 @@ def obligations(prop):
         names = theorem_names(v)
         allnames += names
         vo = v[:-2] + ".vo"
+        if current is not None and rel not in current:
+            continue
         if not (os.path.exists(vo) and os.path.getmtime(vo) >= os.path.getmtime(v)):
             continue
         # Re-run coqc on the properties file alone to capture Print Assumptions.
@@ -169,10 +278,7 @@ def import_cone(prop):
         if f in seen or not os.path.exists(f):
             continue
         seen.add(f)
-        txt = open(f).read()
-        for m in re.finditer(r"From\s+Verif\s+Require\s+(?:Import|Export)\s+([^.]*(?:\.[A-Za-z0-9_]+)*)\s*\.", txt):
-            for mod in m.group(1).split():
-                todo.append(os.path.join(COQ, mod.replace(".", "/") + ".v"))
+        todo += required_files(f)
     return sorted(seen)
 
 
@@ -247,8 +353,8 @@ def main(argv):
     notes = []
 
     # 1. proof obligations
-    coq_ok, coq_log = ensure_coq()
-    names, done, areport, bad_axioms = obligations(prop)
+    coq_ok, coq_log, current = ensure_coq(prop=prop)
+    names, done, areport, bad_axioms = obligations(prop, current)
     forb = forbidden_scan(prop)
     proof_broken = []
     if len(done) < len(names):
@@ -399,8 +505,17 @@ def main(argv):
     if corr_broken and not violations:
         rp = write_replay(prop, "correspondence-broken", {"property": prop, "kind": "correspondence", "no_longer_checks": "correspondence:%s" % prop, "detail": corr_broken})
         violations.append("VIOLATION property=%s replay=%s no-failing-input-found" % (prop, rp))
-    if proof_broken and not [v for v in violations if "no-failing-input-found" not in v]:
-        rp = write_replay(prop, "proof-broken", {"property": prop, "kind": "proof", "no_longer_checks": proof_broken, "coq_log_tail": coq_log[-3000:]})
+    # A broken obligation is reported when the search found no failing input,
+    # and always when the broken file is tied to the source through
+    # coq/Generated (Generated/Check.v, C17/Tie.v): that is a statement about
+    # the source text itself, which a failing input does not replace.
+    source_tied = any(os.path.relpath(f, COQ).startswith("Generated" + os.sep)
+                      for rel in cfg["properties_files"] if rel not in current
+                      for f in file_cone(os.path.join(COQ, rel)))
+    if proof_broken and (source_tied or not [v for v in violations if "no-failing-input-found" not in v]):
+        rp = write_replay(prop, "proof-broken", {"property": prop, "kind": "proof", "no_longer_checks": proof_broken,
+                                                 "errors": coq_errors(coq_log, [os.path.relpath(f, COQ) for f in import_cone(prop)]),
+                                                 "coq_log_tail": coq_log[-3000:]})
         violations.append("VIOLATION property=%s replay=%s no-failing-input-found" % (prop, rp))
 
     # thorough tier: independent re-check of the compiled theorems and their
